@@ -6,7 +6,7 @@
 // Arrays / buffer manager are out of CBMC's reach, so the real code is run on every sequence of three dictionary pages
 // with sizes in 0..=4 (any earlier page size can precede any later one), then one data page per dictionary with every
 // definition-level pattern of 4 rows.
-use glaredb_core::arrays::array::physical_type::{Addressable, PhysicalI32, ScalarStorage};
+use glaredb_core::arrays::scalar::BorrowedScalarValue;
 use glaredb_core::buffer::buffer_manager::DefaultBufferManager;
 
 use super::*;
@@ -38,14 +38,15 @@ fn c10_dictionary__page_state_and_index_read__nat() {
                     let vals: Vec<i32> = (0..n as i32).map(|v| 100 * (round as i32 + 1) + v).collect();
                     let bytes = page_bytes(&vals);
                     dict.prepare_with_values(n, ReadCursor::from_slice(&bytes)).unwrap();
-                    let data = PhysicalI32::get_addressable(&dict.dictionary.data).unwrap();
                     for i in 0..n {
-                        assert!(dict.dictionary.validity.is_valid(i), "dictionary sizes ({n1},{n2},{n3}): slot {i} of page {round} is NULL");
-                        assert!(*data.get(i).unwrap() == vals[i], "dictionary sizes ({n1},{n2},{n3}): slot {i} of page {round} holds a stale value");
+                        match dict.dictionary.get_value(i).unwrap() {
+                            BorrowedScalarValue::Int32(v) => assert!(v == vals[i], "dictionary sizes ({n1},{n2},{n3}): slot {i} of page {round} holds a stale value"),
+                            _ => panic!("dictionary sizes ({n1},{n2},{n3}): slot {i} of page {round} is NULL"),
+                        }
                     }
                     let null_idx = dict.dictionary.logical_len() - 1;
                     assert!(null_idx >= n, "dictionary sizes ({n1},{n2},{n3}): NULL slot overlaps the values");
-                    assert!(!dict.dictionary.validity.is_valid(null_idx), "dictionary sizes ({n1},{n2},{n3}): the NULL slot of page {round} is valid");
+                    assert!(matches!(dict.dictionary.get_value(null_idx).unwrap(), BorrowedScalarValue::Null), "dictionary sizes ({n1},{n2},{n3}): the NULL slot of page {round} is valid");
                     if n == 0 {
                         continue;
                     }
@@ -58,15 +59,16 @@ fn c10_dictionary__page_state_and_index_read__nat() {
                         let mut dec = DictionaryDecoder::<PlainInt32ValueReader>::new(rle);
                         let mut out = Array::new(&DefaultBufferManager, DataType::int32(), 4).unwrap();
                         dec.read(&dict, Definitions::HasDefinitions { levels: &levels, max: 1 }, &mut out, 0, 4).unwrap();
-                        let od = PhysicalI32::get_addressable(&out.data).unwrap();
                         let mut k = 0usize;
                         for r in 0..4 {
                             if levels[r] == 1 {
-                                assert!(out.validity.is_valid(r), "sizes ({n1},{n2},{n3}) page {round} pattern {pattern:04b}: row {r} is NULL but its definition level says present");
-                                assert!(*od.get(r).unwrap() == vals[idx[k] as usize], "sizes ({n1},{n2},{n3}) page {round} pattern {pattern:04b}: row {r} is not dictionary[{}]", idx[k]);
+                                match out.get_value(r).unwrap() {
+                                    BorrowedScalarValue::Int32(v) => assert!(v == vals[idx[k] as usize], "sizes ({n1},{n2},{n3}) page {round} pattern {pattern:04b}: row {r} is not dictionary[{}]", idx[k]),
+                                    _ => panic!("sizes ({n1},{n2},{n3}) page {round} pattern {pattern:04b}: row {r} is NULL but its definition level says present"),
+                                }
                                 k += 1;
                             } else {
-                                assert!(!out.validity.is_valid(r), "sizes ({n1},{n2},{n3}) page {round} pattern {pattern:04b}: row {r} should be NULL");
+                                assert!(matches!(out.get_value(r).unwrap(), BorrowedScalarValue::Null), "sizes ({n1},{n2},{n3}) page {round} pattern {pattern:04b}: row {r} should be NULL");
                             }
                         }
                         cases += 1;
